@@ -89,6 +89,22 @@ def flatten(key):
             elif isinstance(val, Str): raise Unsupported('Debug rendering of an assembled string inside a key')
             else: out += expand_value(kind, val, ty)
         return out
+    if t[0] == 'concat':
+        out = []
+        for part in t[1]: out += flatten(part)
+        return out
+    if t[0] == 'fmtn':
+        # one format! call with several arguments: literal pieces and arguments in template order
+        pieces = decode_template(t[1][1] if isinstance(t[1], tuple) else t[1]); args = list(t[2]); out = []; i = 0
+        for p in pieces:
+            if p[0] == 'lit': out.append(p)
+            else:
+                if i >= len(args): raise Unsupported('format template with more placeholders than arguments')
+                kind, val, ty = args[i]; i += 1
+                if isinstance(val, Str) and kind == 'display': out += flatten(val)
+                elif isinstance(val, Str): raise Unsupported('Debug rendering of an assembled string inside a key')
+                else: out += expand_value(kind, val, ty)
+        return out
     raise Unsupported('key term ' + repr(t)[:80])
 
 
@@ -118,7 +134,7 @@ def part_ty(p):
     """type whose rendering language a key part ranges over: the type the formatting call site names, unless that is a bare type
     parameter of generic key code (`T`, `&T`, `?`), in which case the placeholder's own (monomorphic) type"""
     t = re.sub(r"^(&('\w+ )?(mut )?)+", '', str(p[3]).strip())
-    if t == '?' or re.match(r'^[A-Z][A-Za-z]?\d?$', t) and t not in ('Pt',): return getattr(p[2], 'ty', p[3])
+    if t == '?' or t.startswith('dyn ') or t.startswith('impl ') or re.match(r'^[A-Z][A-Za-z]?\d?$', t) and t not in ('Pt',): return getattr(p[2], 'ty', p[3])
     return p[3]
 
 
